@@ -276,7 +276,12 @@ def make_anneal_sweep(ctx, tn):
         coefs = [(1, -2, 3, 1), (0, 1, -1, 2), (-1, -1, -1, -1)][k]
         U = [(), (labs[0],), (labs[0], labs[1]), (labs[1], labs[2]) if deg2 else tuple(labs)]
         D = T({kk: c for kk, c in zip(U, coefs)})
-        s0 = (dict(D), D.variables if hasattr(D, 'variables') else None, D.mapping if hasattr(D, 'mapping') else None)
+        D.name = 'model'
+        if k == 1:
+            D[(labs[2],)] += 3; D[(labs[2],)] -= 3          # stale bookkeeping: a refresh() inside the annealer would be observable
+        full = lambda: (dict(D), D.variables if hasattr(D, 'variables') else None, D.mapping if hasattr(D, 'mapping') else None, D.name, D.degree,
+                        D.num_binary_variables, getattr(D, 'max_index', None), D.constraints if hasattr(D, 'constraints') else None)
+        s0 = full()
         if spin:
             f = qv.sim.anneal_quso if deg2 else qv.sim.anneal_puso
         else:
@@ -284,7 +289,7 @@ def make_anneal_sweep(ctx, tn):
         init = {l: (1 if spin else 0) for l in labs}
         f(D, num_anneals=2, seed=1)
         f(D, num_anneals=1, seed=1, initial_state=init, schedule=[1.0, 0.5, 0.0])
-        s1 = (dict(D), D.variables if hasattr(D, 'variables') else None, D.mapping if hasattr(D, 'mapping') else None)
+        s1 = full()
         return f.__name__, s0 == s1, init == {l: (1 if spin else 0) for l in labs}
 
     def check(res):
